@@ -10,6 +10,8 @@ pub const H1_NOLEN: u32 = 1;
 pub const H2_SPLIT_ENTRY: u32 = 2;
 pub const H3_SKIP_FIELD: u32 = 4;
 pub const H4_COLLECT_STR: u32 = 8;
+/// H5b: a `Vec<u8>` handed over with `serialize_bytes` (what `serde_bytes` / a hand-written impl does)
+pub const H5_BYTES: u32 = 16;
 
 #[derive(Debug)]
 pub struct WCfg {
@@ -17,7 +19,7 @@ pub struct WCfg {
     pub hseed: u64,
     ctr: Cell<u64>,
     /// per flag: how many times the unusual choice was actually taken
-    pub used: [Cell<u32>; 4],
+    pub used: [Cell<u32>; 5],
 }
 
 impl WCfg {
@@ -112,6 +114,10 @@ impl Serialize for W<'_> {
             }
             (Ty::Option(_), Val::None) => s.serialize_none(),
             (Ty::Option(t), Val::Some(x)) => s.serialize_some(&w(t, x)),
+            (Ty::Seq(t), Val::Seq(xs)) if **t == Ty::U8 && cfg.flag(H5_BYTES) => {
+                let bytes: Vec<u8> = xs.iter().map(|x| if let Val::Int(i) = x { *i as u8 } else { 0 }).collect();
+                s.serialize_bytes(&bytes)
+            }
             (Ty::Seq(t), Val::Seq(xs)) => {
                 if cfg.hmask & H1_NOLEN == 0 {
                     // what `impl Serialize for Vec<T>` does
